@@ -75,6 +75,8 @@ class Sym:
     def call(self, t, blk=None):
         c = callee_of(t)
         args = tuple(self.operand(a) for a in t["args"])
+        if len(args) == 1 and is_identity_fn(self.f.prog, c):
+            return args[0]
         return ("call", c, args, blk)
 
     def place(self, p):
@@ -83,7 +85,7 @@ class Sym:
             if el == "*":
                 e = deref(e)
             elif "f" in el:
-                e = field(e, el["n"], el["f"])
+                e = field(e, el["n"], el["f"], el.get("of", ""))
             elif "ix" in el:
                 e = ("index", e, self.local(el["ix"]))
             elif "cix" in el:
@@ -144,6 +146,23 @@ class Sym:
         return ("unknown", r.get("txt", "")[:60])
 
 
+def is_identity_fn(prog, path):
+    """crate-local fn whose whole body is `return arg1` (e.g. intrinsics::likely/unlikely): decided from its MIR"""
+    cache = prog.__dict__.setdefault("_identity_cache", {})
+    if path in cache:
+        return cache[path]
+    g = prog.get(path)
+    r = False
+    if g is not None and g.argc == 1 and len(g.live) == 1:
+        b = g.blocks[0]
+        st = [x for x in b["stmts"] if x["s"] == "assign"]
+        if b["term"]["t"] == "return" and len(st) == 1 and st[0]["lhs"]["l"] == 0 and not st[0]["lhs"]["p"]:
+            rv = st[0]["rv"]
+            r = rv["r"] == "use" and rv["a"]["k"] in ("copy", "move") and rv["a"]["pl"]["l"] == 1 and not rv["a"]["pl"]["p"]
+    cache[path] = r
+    return r
+
+
 def deref(e):
     if e[0] == "ref":
         return e[1]
@@ -156,10 +175,10 @@ def ref(e):
     return ("ref", e)
 
 
-def field(e, name, idx):
+def field(e, name, idx, of=""):
     if e[0] == "agg" and e[1] == "Tuple" and idx < len(e[2]):
         return e[2][idx]
-    return ("field", e, name)
+    return ("field", e, name, of)
 
 
 def strip(e):
